@@ -40,6 +40,14 @@ def propose(w: S.SWorld, rng: random.Random, prof: Profile):
     nscopes = len(w.scopes)
     group_scope_ids = {id(tg.cancel_scope): gi + 1 for gi, tg in enumerate(w.groups)}
     handle_scope_ids = {id(h._cancel_scope) for h in w.handles}
+    # groups whose host has been woken out of its __aexit__ wait but has not run yet: a one-step window
+    ready_codes = set(w.classify(h) for h in w.loop.ready_handles()) if hasattr(w.loop, "ready_handles") else set()
+    exiting_groups = set()
+    for tt, pp in w.puppets.items():
+        if pp.pending_op == S.GEXIT and ((2000 + tt) in ready_codes or (1000 + tt) in ready_codes):
+            for gi, tg in enumerate(w.groups):
+                if tg.cancel_scope._host_task is (pp.task or getattr(pp, "pre_task", None)):
+                    exiting_groups.add(gi + 1)
     for t in w.idle_puppets():
         p = w.puppets[t]
         chain = scope_chain(w, p)
@@ -78,9 +86,10 @@ def propose(w: S.SWorld, rng: random.Random, prof: Profile):
             if not tg._entered:
                 cands.append((W["genter"], (S.GENTER, t, g, 0)))
             elif tg.cancel_scope._active:
-                if len(w.puppets) < W["max_tasks"]:
-                    cands.append((W["spawn"], (S.SPAWN, t, g, 0)))
-                    cands.append((W["start"], (S.START, t, g, 0)))
+                if len(w.puppets) < W["max_tasks"] + (2 if g in exiting_groups else 0):
+                    boost = 8 if g in exiting_groups else 1
+                    cands.append((W["spawn"] * boost, (S.SPAWN, t, g, 0)))
+                    cands.append((W["start"] * boost, (S.START, t, g, 0)))
                 if top is tg.cancel_scope:
                     cands.append((W["gexit"], (S.GEXIT, t, g, 0)))
             else:
